@@ -45,6 +45,20 @@ Fixpoint upd {A} (l : list A) (i : nat) (x : A) : list A :=
   | y :: r, S i' => y :: upd r i' x
   end.
 
+(* What a getter call returns: Go's (blocks, err).  Client.blocks/headers end
+   with `return blocks, validate(...)`: when the reply decodes but is rejected
+   (wrong number, broken parent link) the REJECTED blocks come back together
+   with the error, so an error may be accompanied by data ([junk]).  cache.get
+   looks at err first and stores nothing unless err = nil: the only thing READ
+   may use of an outcome is [fetch_value]. *)
+Inductive fetched (D : Type) :=
+| FOk (d : D)                       (* err = nil *)
+| FErr (junk : option D).           (* err != nil, whatever data came with it *)
+Arguments FOk {D} d.
+Arguments FErr {D} junk.
+Definition fetch_value {D} (r : fetched D) : option D :=
+  match r with FOk d => Some d | FErr _ => None end.
+
 Section WithD.
 Context {D : Type}.
 
@@ -95,8 +109,8 @@ Definition lookup (k : key) (kept : list key) (c : cache D) : option (cache D * 
   | None => None
   end.
 
-(* READ on segment [sid].  [res] is what the source answers IF it is asked
-   (None = the fetch fails).  Result: new cache, what the caller gets
+(* READ on segment [sid].  [res] is [fetch_value] of what the source answers
+   IF it is asked (None = the fetch fails, with or without data).  Result: new cache, what the caller gets
    (None = error), whether the source was asked. *)
 Definition read (sid : nat) (res : option D) (c : cache D) : option (cache D * option D * bool) :=
   match nth_error (c_heap c) sid with
@@ -113,6 +127,9 @@ Definition read (sid : nat) (res : option D) (c : cache D) : option (cache D * o
       end
   end.
 
+(* READ / a whole get, given the getter's outcome as Go sees it *)
+Definition read_f (sid : nat) (r : fetched D) (c : cache D) := read sid (fetch_value r) c.
+
 (* One whole cache.get when nobody else runs in between. *)
 Definition get (k : key) (kept : list key) (res : option D) (c : cache D)
   : option (cache D * option D * bool) :=
@@ -120,6 +137,9 @@ Definition get (k : key) (kept : list key) (res : option D) (c : cache D)
   | None => None
   | Some (c1, sid, _) => read sid res c1
   end.
+
+Definition get_f (k : key) (kept : list key) (r : fetched D) (c : cache D) :=
+  get k kept (fetch_value r) c.
 
 (* ---- the concurrent system: any number of callers, each between its two
    critical sections holds one segment index ---- *)
